@@ -38,4 +38,10 @@ static inline size_t spec_ci_len(const void *b, size_t a) { return SPEC_CI_LEN(b
 static inline v_u128 spec_ci_val(const void *b, size_t n) { return SPEC_CI_VAL(b, n); }
 static inline int spec_ci_fits64(const void *b, size_t n) { return SPEC_CI_VAL(b, n) <= (v_u128)UINT64_MAX; }
 static inline int spec_ci_fitsint(const void *b, size_t n) { return SPEC_CI_VAL(b, n) <= (v_u128)INT_MAX; }
+/* harness-side copies: under --dfcc a function must not be used both inside contract clauses (left
+ * uninstrumented) and in instrumented code (harness bodies) -- CBMC then reports "not enough
+ * arguments" and substitutes a nondeterministic value */
+static inline size_t hspec_ci_len(const void *b, size_t a) { return SPEC_CI_LEN(b, a); }
+static inline v_u128 hspec_ci_val(const void *b, size_t n) { return SPEC_CI_VAL(b, n); }
+static inline int hspec_ci_fits64(const void *b, size_t n) { return SPEC_CI_VAL(b, n) <= (v_u128)UINT64_MAX; }
 #endif
